@@ -301,7 +301,7 @@ def body(chk):
 
 
 C_REPLAYS = {
-    ('masa_get_name', 'data'): ('char buf[128]; strcpy(buf,"unset"); masa_init("h","euler_1d"); masa_get_name(buf); printf("\\nR name %s\\n", buf);', ['R name euler_1d']),
+    ('masa_get_name', 'data'): ('char buf[128]; memset(buf,\'x\',100); buf[100]=0; masa_init("h","euler_1d"); masa_get_name(buf); printf("\\nR name %s\\n", buf); masa_init("g","navierstokes_3d_compressible"); masa_get_name(buf); masa_select_mms("h"); masa_get_name(buf); printf("R again %s.\\n", buf);', ['R name euler_1d\n', 'R again euler_1d.']),
     ('masa_init_param', 'status'): ('masa_init("h","masa_test_function"); int rc = masa_init_param(); printf("\\nR nonzero %d\\n", rc!=0);', ['R nonzero 1']),
     ('masa_sanity_check', 'status'): ('masa_init("h","euler_1d"); masa_purge_default_param(); int rc = masa_sanity_check(); printf("\\nR nonzero %d\\n", rc!=0);', ['R nonzero 1']),
     ('masa_get_array', 'status'): ('masa_init("h","cp_normal"); int n=0; double a[16]; int rc = masa_get_array("no_such_vector",&n,a); printf("\\nR nonzero %d\\n", rc!=0);', ['R nonzero 1']),
